@@ -8,7 +8,7 @@ import random
 from dataclasses import dataclass, field
 
 INT, BOOL, FLOAT, STR = 'int', 'bool', 'float', 'str'
-EXT_KINDS = ['closure', 'lambda_arg', 'lambda_iife', 'dict', 'dict_loop', 'dict_comp', 'tuple', 'enumerate', 'list_ops', 'casts', 'try', 'nested', 'list_comp', 'default_arg', 'str_ops', 'dict_views', 'list_fill', 'float_mix']
+EXT_KINDS = ['closure', 'lambda_arg', 'lambda_iife', 'dict', 'dict_loop', 'dict_comp', 'tuple', 'enumerate', 'list_ops', 'casts', 'try', 'nested', 'list_comp', 'default_arg', 'str_ops', 'dict_views', 'list_fill', 'float_mix', 'name_reuse']
 SCALARS = [INT, BOOL, FLOAT, STR]
 NAME_POOL = ['a', 'b', 'c', 'n', 'm', 'k', 'x', 'y', 'z', 'v', 'w', 'p', 'q', 'i2', 'val', 'cnt', 'acc', 'tmp', 'lhs', 'rhs']
 
@@ -98,7 +98,7 @@ class Gen:
                 return '(%s %s %s)' % (self.operand(INT, env, 0, 'mul'), r.choice(['<<', '>>']), r.choice(['1', '2', '3']))
             if k < .8:
                 self.use('mod')
-                return '(%s & 255) %% %s' % (self.expr(INT, env, d - 1), r.choice(['3', '7', '10']))
+                return '(%s & 255) %% %s' % (self.operand(INT, env, d - 1, 'mul'), r.choice(['3', '7', '10']))      # (the mask covers the whole operand: | and ^ bind weaker than &)
             if k < .88:
                 self.use('unary')
                 return '-%s' % self.operand(INT, env, d - 1, 'unary')
@@ -189,7 +189,7 @@ class Gen:
         env = dict(env)
         for _ in range(r.randint(1, 4)):
             k = r.random()
-            if self.opts['ext'] and (getattr(self, 'force_ext', None) or r.random() < .2):
+            if self.opts['ext'] and r.random() < .2:
                 out.extend(self.ext_stmt(env, ind, d))
                 continue
             if k < .3:
@@ -297,9 +297,9 @@ class Gen:
         cands = [v for v, vt in env.items() if vt == INT]
         return [self.rnd.choice(cands) if cands else self.lit(INT) for _ in range(n)]
 
-    def ext_stmt(self, env: dict[str, str], ind: str, d: int) -> list[str]:
+    def ext_stmt(self, env: dict[str, str], ind: str, d: int, kind: str | None = None) -> list[str]:
         r = self.rnd
-        if self.opts.get('wide', True) and r.random() < .08:
+        if kind is None and self.opts.get('wide', True) and r.random() < .08:
             # a call of a function whose signature has eleven entries on one level; the result is typed from its return type
             if not getattr(self, 'need_wide', False):
                 self.need_wide = self.fresh('wide')
@@ -309,7 +309,7 @@ class Gen:
             env[v] = INT
             self.last_ext_var = v
             return out
-        kind = self.force_ext.pop(0) if getattr(self, 'force_ext', None) else r.choice(['closure', 'closure', 'lambda_arg', 'lambda_iife', 'dict', 'dict_loop', 'dict_comp', 'tuple', 'enumerate', 'list_ops', 'casts', 'try', 'nested', 'list_comp', 'default_arg', 'str_ops', 'dict_views', 'list_fill', 'float_mix'])
+        kind = kind or r.choice(['closure', 'closure', 'lambda_arg', 'lambda_iife', 'dict', 'dict_loop', 'dict_comp', 'tuple', 'enumerate', 'list_ops', 'casts', 'try', 'nested', 'list_comp', 'default_arg', 'str_ops', 'dict_views', 'list_fill', 'float_mix', 'name_reuse'])
         self.use('ext_' + kind)
         out: list[str] = []
         v = self.fresh('x')
@@ -406,6 +406,15 @@ class Gen:
             out.append('%s%s = [%s, %s, %s]' % (ind, xs, e1, e2, self.lit(INT)))
             out.append('%s%s = [%s * 2 for %s in %s if %s > 1]' % (ind, ys, x, x, xs, x))
             out.append('%s%s = len(%s)' % (ind, v, ys))
+        elif kind == 'name_reuse':
+            # one name three times: a temporary of an earlier block, a variable of the function, re-assigned in a nested block
+            t, i = self.fresh('t'), self.fresh('i')
+            out.append('%sif %s:' % (ind, self.expr(BOOL, env, 1)))
+            out.append('%s\t%s = %s' % (ind, t, e1))
+            out.append('%s%s = %s' % (ind, t, e2))
+            out.append('%sfor %s in range(2):' % (ind, i))
+            out.append('%s\t%s = %s + %s * 100' % (ind, t, self.int_atoms(env, 1)[0], i))
+            out.append('%s%s = %s' % (ind, v, t))
         elif kind == 'list_fill':
             # [v] * n: annotated and inferred declarations, int and bool elements
             xs, a = self.fresh('xs'), self.int_atoms(env, 1)[0]
@@ -453,11 +462,11 @@ class Gen:
         # forced extended constructs: first statements of the body, their results are part of the returned value
         observed: list[str] = []
         head: list[str] = []
-        if self.force_ext and self.opts['ext']:
+        if self.force_ext and self.opts['ext'] and self_fields is None:      # (module-level functions are entry points: their value is observed)
             rt = INT
             henv = dict(env)
             for _ in range(min(2, len(self.force_ext))):
-                head.extend(self.ext_stmt(henv, ind + '\t', 2))
+                head.extend(self.ext_stmt(henv, ind + '\t', 2, kind=self.force_ext.pop(0)))
                 observed.append(self.last_ext_var)
         out = ['%sdef %s(%s) -> %s:' % (ind, name, sig, rt)]
         out.extend(head)
@@ -504,7 +513,7 @@ class Gen:
             out.append('def %s(%s: int) -> %s:' % (mk, q, cname))
             out.append('\treturn %s(%s)' % (cname, ', '.join(q if t == INT else self.lit(t) for t in fields.values())))
             self.classes[-1]['factory'] = mk
-        if self.opts['ext'] and self.opts.get('subclass', True) and r.random() < .4:
+        if self.opts['ext'] and self.opts.get('subclass', True) and (self.opts.get('force_subclass') or r.random() < .4):
             out.append('')
             out.extend(self.subclass(self.classes[-1]))
         return out
@@ -530,6 +539,16 @@ class Gen:
         out.append('\tdef %s(self, %s: int) -> int:' % (mname, a))
         out.append('\t\treturn %s' % ' + '.join(terms))
         base['subclass'] = dict(name=dname, method=mname)
+        if self.opts.get('force_subclass') or r.random() < .6:
+            # a third level: members of the grandparent reached through the grandchild
+            ename, top, q3, a3, m3 = self.fresh('E'), self.fresh('top'), self.fresh('p'), self.fresh('p'), self.fresh('m')
+            out += ['', 'class %s(%s):' % (ename, dname), '\t%s: int' % top, '', '\tdef __init__(self, %s: int) -> None:' % q3,
+                    '\t\tsuper().__init__(%s + 2, %s)' % (q3, q3), '\t\tself.%s = %s' % (top, q3), '']
+            terms3 = ['self.%s' % top, 'self.%s' % ext, 'self.%s(%s)' % (mname, a3)] + ['self.%s' % f for f in ints[:1]]
+            if bm:
+                terms3.append('self.%s(%s)' % (bm[0], ', '.join(a3 if t == INT else 'True' for _, t in bm[1])))
+            out += ['\tdef %s(self, %s: int) -> int:' % (m3, a3), '\t\treturn %s' % ' + '.join(terms3)]
+            base['subclass']['deep'] = dict(name=ename, method=m3)
         return out
 
     def enum(self) -> list[str]:
@@ -576,7 +595,7 @@ class Gen:
             lines.extend(body)
             lines.append('')
             entries.append((name, self.args_for(params), rt))
-        if self.opts['classes'] and r.random() < .6:
+        if self.opts['classes'] and (self.opts.get('force_subclass') or r.random() < .6):
             lines.extend(self.klass())
             lines.append('')
             c = self.classes[-1]
@@ -587,6 +606,10 @@ class Gen:
                 entries.append(('%s(%s, %s).%s' % (d['name'], self.lit(INT), self.lit(INT), d['method']), self.args_for([('a', INT)]), INT))
                 for mname, params, rt in c['methods'][:1]:
                     entries.append(('%s(%s, %s).%s' % (d['name'], self.lit(INT), self.lit(INT), mname), self.args_for(params), rt))
+                if d.get('deep'):
+                    entries.append(('%s(%s).%s' % (d['deep']['name'], self.lit(INT), d['deep']['method']), self.args_for([('a', INT)]), INT))
+                    for mname, params, rt in c['methods'][:1]:
+                        entries.append(('%s(%s).%s' % (d['deep']['name'], self.lit(INT), mname), self.args_for(params), rt))
         head: list[str] = []
         if getattr(self, 'need_wide', False):
             head += ['def %s(%s, p9: float) -> bool:' % (self.need_wide, ', '.join('p%d: int' % k for k in range(9))), '\treturn p0 > p8', '']
